@@ -228,7 +228,12 @@ def random_session(job):
                         kind = "binary"
                         data = rng.randbytes(n) if rng.random() < 0.5 else (rng.randbytes(max(1, n // 50)) * 60)[:n]
                     mid = sc.add(kind, data)
-                    obs = pair.step("send", [d, mid])
+                    try:
+                        obs = pair.step("send", [d, mid])
+                    except Exception as e:      # an exception of the code under test is an observation:
+                        # no specification action is called "error:...", so TLC rejects the trace here
+                        ev.append({"a": "error:" + type(e).__name__, "args": [d], "obs": pair.proj()})
+                        break
                     ev.append({"a": "send", "args": [d, {"id": mid, "kind": kind, "dlen": len(data)}], "obs": obs})
                     pending[d] += 1
                 else:
@@ -236,7 +241,11 @@ def random_session(job):
                     k = rng.choice([1, 1, 2, 3, 5])
                     ctl = rng.choice(["none", "ping", "pong"])
                     del rec[:]
-                    obs = pair.step("transfer", [d, k, ctl, rng.randrange(4)])
+                    try:
+                        obs = pair.step("transfer", [d, k, ctl, rng.randrange(4)])
+                    except Exception as e:
+                        ev.append({"a": "error:" + type(e).__name__, "args": [d], "obs": pair.proj()})
+                        break
                     for w in rec:
                         ev.append({"a": "wire", "args": w["args"], "obs": dict(last)})
                     new = obs[d][len(last[d]):]
@@ -259,23 +268,26 @@ def session_sig(t, bad, l):
     return {"setup": "session", "deflate": t["cfg"]["deflate"], "dir": bad["args"][0] if bad.get("args") else None}
 
 
+def _mc(ctx, *a, **kw):
+    """ctx.mc, skippable with WS_DEV_SKIP_MC=1 (development only: seeded-edit runs, where the
+    specification-level model checking is unaffected by the edit)."""
+    if os.environ.get("WS_DEV_SKIP_MC") == "1":
+        return None
+    return ctx.mc(*a, **kw)
+
+
 def run(ctx):
     global _RECV_CAT, _CHAN_CAT
-    from checks.C15 import coverage_names
     _RECV_CAT = ctx.pick("recv_quick", "recv_full")
     _CHAN_CAT = ctx.pick("chan_quick", "chan")
     # 1. model checking
     t0 = time.time()
-    ctx.mc("ws", "MC_WsChannel", "MC_WsChannel.cfg", overrides=ctx.pick({"MaxSend": 2}, {}),
+    _mc(ctx, "ws", "MC_WsChannel", "MC_WsChannel.cfg", overrides=ctx.pick({"MaxSend": 2}, {}),
            required_actions=["Send", "Transfer", "Deliver", "WireCanon"])
     rc = cat(_RECV_CAT)
     os.environ["WS_CATALOG"] = rc.write(os.path.join(ctx.scratch, "catalog_recv.ndjson"))
-    r = ctx.mc("ws", "MC_WsReceiver", "MC_WsReceiverValid.cfg", env={"WS_CATALOG": os.environ["WS_CATALOG"]},
-               overrides=ctx.pick({}, {"MaxDelivered": 1}), required_actions=["SendData", "SendClose"])
-    cov = coverage_names(r.out)
-    for a in ("SendPing", "SendPong"):
-        if not cov.get(a):
-            raise framework.Machinery("vacuity: action %s never taken" % a)
+    r = _mc(ctx, "ws", "MC_WsReceiver", "MC_WsReceiverValid.cfg", env={"WS_CATALOG": os.environ["WS_CATALOG"]},
+               overrides=ctx.pick({}, {"MaxDelivered": 1}), required_actions=["SendData", "SendPing", "SendPong", "SendClose"])
     ctx._phase("mc", t0)
     # 2. codec table: TLC invariants on every row + Tornado's writer + harness plumbing
     t0 = time.time()
